@@ -45,8 +45,10 @@ let print_reports sid k reps =
     Printf.printf "REP %s %d %s\n" sid k
       (String.concat " " (List.map string_of_n (enc_report r)))) reps
 
+type anystate = Book of rstate | Envs of estate
+
 let () =
-  let st : rstate option ref = ref None in
+  let st : anystate option ref = ref None in
   let sid = ref "" in
   let k = ref 0 in
   let pending_hdr : (string * n * n * bool * int) option ref = ref None in
@@ -56,10 +58,14 @@ let () =
   let flush_panic () =
     (* an R 9 line has no S line after it *)
     match !st, !pending_op, !pending_out with
-    | Some s, Some o, Some r ->
+    | Some (Book s), Some o, Some r ->
         let (s', reps) = rs_step s o r [] in
-        print_reports !sid !k reps; st := Some s'; pending_op := None; pending_out := None
+        print_reports !sid !k reps; st := Some (Book s'); pending_op := None; pending_out := None
+    | Some (Envs s), Some o, Some r ->
+        let (s', reps) = es_step_fn s o r [] in
+        print_reports !sid !k reps; st := Some (Envs s'); pending_op := None; pending_out := None
     | _ -> () in
+  let pending_mhdr : (n * int * n * n * n * bool * n list) option ref = ref None in
   (try
     while true do
       let line = input_line stdin in
@@ -71,26 +77,47 @@ let () =
                sid := id; k := 0; st := None; pending_op := None; pending_out := None;
                pending_hdr := Some (id, n_of_string t0, n_of_string tick, tr = "1", int_of_string l)
            | _ -> Printf.printf "REP ? 0 0\n")
+      | 'M' ->
+          (match String.split_on_char ' ' (rest line) with
+           | id :: kind :: l :: seed :: t0 :: step :: tr :: _a :: ticks ->
+               sid := id; k := 0; st := None; pending_op := None; pending_out := None; pending_hdr := None;
+               pending_mhdr := Some (n_of_string kind, int_of_string l, n_of_string seed, n_of_string t0,
+                                     n_of_string step, tr = "1", List.map n_of_string (List.filter (fun x -> x <> "") ticks))
+           | _ -> Printf.printf "REP ? 0 0\n")
+      | 'F' -> Printf.printf "REP %s %d 6\n" !sid !k
+      | 'S' when !pending_mhdr <> None ->
+          let obs = nums_of (rest line) in
+          (match !pending_mhdr with
+           | Some (kind, l, seed, t0, step, tr, ticks) ->
+               pending_mhdr := None;
+               let (s, reps) = es_init kind (nat_of_int l) seed t0 step tr ticks obs in
+               st := (match s with Some s -> Some (Envs s) | None -> None); print_reports !sid 0 reps
+           | None -> ())
       | 'S' ->
           let obs = nums_of (rest line) in
           (match !pending_hdr with
            | Some (_, t0, tick, tr, l) ->
                pending_hdr := None;
                let (s, reps) = rs_init (nat_of_int l) t0 tick tr obs in
-               st := s; print_reports !sid 0 reps
+               st := (match s with Some s -> Some (Book s) | None -> None); print_reports !sid 0 reps
            | None ->
                (match !st, !pending_op, !pending_out with
-                | Some s, Some o, Some r ->
+                | Some (Book s), Some o, Some r ->
                     let (s', reps) = rs_step s o r obs in
                     incr ops; if rs_valid s' && not (rs_ended s') then incr valid_ops;
-                    print_reports !sid !k reps; st := Some s'; pending_op := None; pending_out := None
+                    print_reports !sid !k reps; st := Some (Book s'); pending_op := None; pending_out := None
+                | Some (Envs s), Some o, Some r ->
+                    let (s', reps) = es_step_fn s o r obs in
+                    incr ops; if es_valid s' && not (es_ended s') then incr valid_ops;
+                    print_reports !sid !k reps; st := Some (Envs s'); pending_op := None; pending_out := None
                 | _ -> ()))
       | 'O' -> flush_panic (); incr k; pending_op := Some (nums_of (rest line))
       | 'R' -> pending_out := Some (nums_of (rest line))
       | 'E' ->
           flush_panic (); incr scripts;
           (match !st with
-           | Some s -> Printf.printf "END %s %d %d\n" !sid !k (if rs_valid s then 1 else 0)
+           | Some (Book s) -> Printf.printf "END %s %d %d\n" !sid !k (if rs_valid s then 1 else 0)
+           | Some (Envs s) -> Printf.printf "END %s %d %d\n" !sid !k (if es_valid s then 1 else 0)
            | None -> Printf.printf "END %s %d 0\n" !sid !k)
       | _ -> ()
     done
